@@ -25,9 +25,17 @@ Inductive astmt : Set :=
    extra loop test `not flag` that break / return lowering attaches to the loop: it is tested before every
    item is pulled from the iterator (ag__.for_stmt: once before the loop and after every body call) *)
 | AFor (l : label) (uses targets : list var) (ext : option var) (L : list var) (body : ablock)
+(* exceptions: explicit raise; try / except / else / finally stays a native statement (its clauses contain
+   rewritten statements); the handler a raised exception goes to is chosen by the next decision (an index past
+   the last handler: none matches) *)
+| ARaise (l : label) (uses : list var)
+| ATry (body : ablock) (hs : ahandlers) (orelse final : ablock)
 with ablock : Set :=
 | ANil
-| ACons (li : list var) (s : astmt) (r : ablock).      (* li: LIVE_VARS_IN of s as the analysis reports it *)
+| ACons (li : list var) (s : astmt) (r : ablock)       (* li: LIVE_VARS_IN of s as the analysis reports it *)
+with ahandlers : Set :=
+| AHNil
+| AHCons (b : ablock) (r : ahandlers).
 
 Definition mem (x : var) (l : list var) : bool := existsb (Nat.eqb x) l.
 Definition upd (s : store) (x : var) (v : option val) : store := fun y => if Nat.eqb y x then v else s y.
@@ -62,7 +70,15 @@ Definition leave (fn : bool) (L : list var) (outer inner : store) : store :=
   if fn then (fun x => if mem x L then outer x else inner x) else inner.
 
 Definition event : Set := (label * list val)%type.
-Definition res : Set := option (list event * store * decisions).   (* None: stuck (unbound read) or out of fuel *)
+Inductive fout : Set := FN | FR.                                  (* completed / an exception is propagating *)
+Definition res : Set := option (list event * fout * store * decisions).   (* None: stuck (unbound read, a finally
+                                                                            clause that raises) or out of fuel *)
+Definition dnat (d : decisions) : nat := match d with [] => 0 | c :: _ => c end.
+Fixpoint hnth (hs : ahandlers) (k : nat) : option ablock :=
+  match hs with
+  | AHNil => None
+  | AHCons b r => match k with 0 => Some b | S k' => hnth r k' end
+  end.
 Definition dhead (d : decisions) : bool := match d with [] => false | c :: _ => negb (Nat.eqb c 0) end.
 Definition dtail (d : decisions) : decisions := match d with [] => [] | _ :: r => r end.
 
@@ -74,7 +90,7 @@ Fixpoint run_stmt (fn : bool) (n : nat) (st : astmt) (s : store) (d : decisions)
     | AAtom l us ds =>
         match reads s us with
         | None => None
-        | Some vs => Some ([(l, vs)], write s l vs 0 ds, d)
+        | Some vs => Some ([(l, vs)], FN, write s l vs 0 ds, d)
         end
     | AIf l us L1 b1 L2 b2 =>
         match reads s us with
@@ -83,7 +99,7 @@ Fixpoint run_stmt (fn : bool) (n : nat) (st : astmt) (s : store) (d : decisions)
             let L := if dhead d then L1 else L2 in
             match run_block fn n' (if dhead d then b1 else b2) (enter fn L s) (dtail d) with
             | None => None
-            | Some (tr, s1, d1) => Some ((l, vs) :: tr, leave fn L s s1, d1)
+            | Some (tr, o, s1, d1) => Some ((l, vs) :: tr, o, leave fn L s s1, d1)
             end
         end
     | AWhile l us L body =>
@@ -93,13 +109,14 @@ Fixpoint run_stmt (fn : bool) (n : nat) (st : astmt) (s : store) (d : decisions)
             if dhead d then
               match run_block fn n' body (enter fn L s) (dtail d) with
               | None => None
-              | Some (tr, s1, d1) =>
+              | Some (tr, FR, s1, d1) => Some ((l, vs) :: tr, FR, leave fn L s s1, d1)
+              | Some (tr, FN, s1, d1) =>
                   match run_stmt fn n' (AWhile l us L body) (leave fn L s s1) d1 with
                   | None => None
-                  | Some (tr2, s2, d2) => Some ((l, vs) :: tr ++ tr2, s2, d2)
+                  | Some (tr2, o2, s2, d2) => Some ((l, vs) :: tr ++ tr2, o2, s2, d2)
                   end
               end
-            else Some ([(l, vs)], s, dtail d)
+            else Some ([(l, vs)], FN, s, dtail d)
         end
     | AFor l us tg ext L body =>
         match reads s us with
@@ -107,7 +124,34 @@ Fixpoint run_stmt (fn : bool) (n : nat) (st : astmt) (s : store) (d : decisions)
         | Some vs =>
             match run_for fn n' l tg ext L body vs 0 s d with
             | None => None
-            | Some (tr, s1, d1) => Some ((l, vs) :: tr, s1, d1)
+            | Some (tr, o, s1, d1) => Some ((l, vs) :: tr, o, s1, d1)
+            end
+        end
+    | ARaise l us =>
+        match reads s us with
+        | None => None
+        | Some vs => Some ([(l, vs)], FR, s, d)
+        end
+    | ATry body hs orelse final =>
+        match run_block fn n' body s d with
+        | None => None
+        | Some (tr1, o1, s1, d1) =>
+            (* what runs between the body and the finally clause *)
+            let mid :=
+              match o1 with
+              | FN => run_block fn n' orelse s1 d1
+              | FR => match hnth hs (dnat d1) with
+                      | Some h => run_block fn n' h s1 (dtail d1)
+                      | None => Some ([], FR, s1, dtail d1)
+                      end
+              end in
+            match mid with
+            | None => None
+            | Some (tr2, o2, s2, d2) =>
+                match run_block fn n' final s2 d2 with
+                | Some (tr3, FN, s3, d3) => Some (tr1 ++ tr2 ++ tr3, o2, s3, d3)
+                | _ => None
+                end
             end
         end
     end
@@ -119,18 +163,19 @@ with run_for (fn : bool) (n : nat) (l : label) (tg : list var) (ext : option var
   | S n' =>
       match ext_stop ext s with
       | None => None
-      | Some true => Some ([], s, d)
+      | Some true => Some ([], FN, s, d)
       | Some false =>
         if dhead d then
           match run_block fn n' body (write (enter fn L s) l (vs ++ [k]) 0 tg) (dtail d) with
           | None => None
-          | Some (tr, s1, d1) =>
+          | Some (tr, FR, s1, d1) => Some ((l, [k]) :: tr, FR, leave fn L s s1, d1)
+          | Some (tr, FN, s1, d1) =>
               match run_for fn n' l tg ext L body vs (S k) (leave fn L s s1) d1 with
               | None => None
-              | Some (tr2, s2, d2) => Some ((l, [k]) :: tr ++ tr2, s2, d2)
+              | Some (tr2, o2, s2, d2) => Some ((l, [k]) :: tr ++ tr2, o2, s2, d2)
               end
           end
-        else Some ([(l, [k])], s, dtail d)
+        else Some ([(l, [k])], FN, s, dtail d)
       end
   end
 with run_block (fn : bool) (n : nat) (b : ablock) (s : store) (d : decisions) {struct n} : res :=
@@ -138,14 +183,15 @@ with run_block (fn : bool) (n : nat) (b : ablock) (s : store) (d : decisions) {s
   | 0 => None
   | S n' =>
     match b with
-    | ANil => Some ([], s, d)
+    | ANil => Some ([], FN, s, d)
     | ACons _ st r =>
         match run_stmt fn n' st s d with
         | None => None
-        | Some (tr, s1, d1) =>
+        | Some (tr, FR, s1, d1) => Some (tr, FR, s1, d1)
+        | Some (tr, FN, s1, d1) =>
             match run_block fn n' r s1 d1 with
             | None => None
-            | Some (tr2, s2, d2) => Some (tr ++ tr2, s2, d2)
+            | Some (tr2, o2, s2, d2) => Some (tr ++ tr2, o2, s2, d2)
             end
         end
     end
@@ -160,22 +206,59 @@ Definition minus (a b : list var) : list var := filter (fun x => negb (mem x b))
 (* live-in of a block whose exit set is O *)
 Definition lin (b : ablock) (O : list var) : list var := match b with ANil => O | ACons li _ _ => li end.
 
-Fixpoint chk_stmt (st : astmt) (li out : list var) {struct st} : bool :=
+(* can an exception escape from the block? *)
+Fixpoint raises_stmt (st : astmt) : bool :=
+  match st with
+  | AAtom _ _ _ => false
+  | AIf _ _ _ b1 _ b2 => raises_block b1 || raises_block b2
+  | AWhile _ _ _ body | AFor _ _ _ _ _ body => raises_block body
+  | ARaise _ _ => true
+  | ATry body hs orelse final => raises_block body || raises_hs hs || raises_block orelse || raises_block final
+  end
+with raises_block (b : ablock) : bool :=
+  match b with ANil => false | ACons _ st r => raises_stmt st || raises_block r end
+with raises_hs (h : ahandlers) : bool :=
+  match h with AHNil => false | AHCons b r => raises_block b || raises_hs r end.
+
+(* live-in sets of the handlers of a try (exit set F) *)
+Fixpoint hins (hs : ahandlers) (F : list var) : list var :=
+  match hs with AHNil => [] | AHCons b r => lin b F ++ hins r F end.
+
+(* out: live after the statement; X: live where an exception that escapes the statement is caught (or nothing,
+   when it leaves the function) *)
+Fixpoint chk_stmt (st : astmt) (li out X : list var) {struct st} : bool :=
   match st with
   | AAtom _ us ds => subset us li && subset (minus out ds) li
   | AIf _ us L1 b1 L2 b2 =>
       subset us li && subset (lin b1 out) li && subset (lin b2 out) li
-      && chk_block b1 out && chk_block b2 out
+      && chk_block b1 out X && chk_block b2 out X
       && disjoint L1 (lin b1 out) && disjoint L1 out && disjoint L2 (lin b2 out) && disjoint L2 out
+      && (negb (raises_block b1) || disjoint L1 X) && (negb (raises_block b2) || disjoint L2 X)
   | AWhile _ us L body =>
       subset us li && subset (lin body li) li && subset out li
-      && chk_block body li && disjoint L li
+      && chk_block body li X && disjoint L li && (negb (raises_block body) || disjoint L X)
   | AFor _ us tg ext L body =>
       subset us li && subset (minus (lin body li) tg) li && subset out li
-      && chk_block body li && disjoint L li && match ext with None => true | Some x => mem x li end
+      && chk_block body li X && disjoint L li && match ext with None => true | Some x => mem x li end
+      && (negb (raises_block body) || disjoint L X)
+  | ARaise _ us => subset us li && subset X li
+  | ATry body hs orelse final =>
+      let Fn := lin final out in            (* the finally clause is entered normally ... *)
+      let Fx := lin final X in              (* ... or with an exception propagating *)
+      let E := lin orelse Fn in
+      subset (lin body E) li
+      && chk_block final out X && chk_block final X X
+      && chk_hs hs Fn Fx
+      && chk_block orelse Fn Fx
+      && chk_block body E (hins hs Fn ++ Fx)
   end
-with chk_block (b : ablock) (O : list var) {struct b} : bool :=
+with chk_block (b : ablock) (O X : list var) {struct b} : bool :=
   match b with
   | ANil => true
-  | ACons li st r => chk_stmt st li (lin r O) && chk_block r O
+  | ACons li st r => chk_stmt st li (lin r O) X && chk_block r O X
+  end
+with chk_hs (hs : ahandlers) (Fn Fx : list var) {struct hs} : bool :=
+  match hs with
+  | AHNil => true
+  | AHCons b r => chk_block b Fn Fx && chk_hs r Fn Fx
   end.
